@@ -2,8 +2,7 @@ package main
 
 import (
 	"verifharness/core"
-	_ "verifharness/pool"
-	_ "verifharness/shardid"
+	_ "verifharness/persist"
 )
 
 func main() { core.Main() }
